@@ -60,7 +60,11 @@ for sid in sorted(os.listdir(root)):
               "C10-D": "C10-R7", "C11-D": "C11-R6", "C13-C": "C13-R4 (half-close not delayed)", "C18-D": "C18-R4 (refusal not narrowed)", "C20-C": "C20-R1 (cleanup removes only the temporary file)", "C20-B": "C20-R1 (success means written)",
               "C02-F": "C02-R4 (window stays closed)", "C04-E": "C04-R6", "C05-E": "C05-R8 / C11-R6 (address-change block)", "C06-F": "C06-R5", "C07-F": "C07-R8",
               "C08-F": "C08-R9", "C09-F": "C09-R6", "C11-F": "C11-R6 (fresh record)", "C13-E": "C13-R6 / C07-R4 (wrapper inner reads)", "C17-F": "C17-R1 (every record lowers expiry)",
-              "C18-F": "C18-R3 (minimum assigned before Configure)", "C19-E": "C19-R7"}
+              "C18-F": "C18-R3 (minimum assigned before Configure)", "C19-E": "C19-R7",
+              "C02-G": "C02-R6 (left-over window rewound only on the chunk reader's success edge)", "C05-G": "C05-R9 (header slot = fixed + padding + sibling length of the address written)",
+              "C08-G": "C08-R10 (reload short-cut content refreshed by save and load)", "C17-G": "C17-R1 (an earlier expiry is always taken)",
+              "C18-G": "C18-R5 (legacy flags only tested or folded into the derived flags)", "C19-G": "C19-R4 (round publishes the best index or leaves on cur == best)",
+              "C05-H": "C05-R7 (through the helpers a session is built with)", "C12-H": "C12-R8 (lock balance)", "C14-H": "C14-R5 (recorded on every exit)"}
     if sid in missed:
         meta["missed_when_first_run"] = True
         meta["check_strengthened_with"] = missed[sid]
